@@ -35,12 +35,21 @@ def run(ctx):
     for cap in ("random", "one"):
         scen.append(dict(kind="wl", wl=dict(words=[wlfam.o(w) for w in big], nolist=0, len=4, cap=cap, sep="char", sepChar=wlfam.o("-")), maxTrials=0, failRateOne=0,
                          mode="paths", paths=0, maxLeaves=0, tag="big-list-one-fixed-word", reps=400 if quick else 4000))
+    # a word repeated as often as a narrow counter can count, next to its capitalised twin (a twin that survives costs the bonus)
+    for k in (255, 256, 257, 512) + (() if quick else (65535, 65536)):
+        for ws in (["polish"] * k + ["Polish", "one"], ["Polish"] * k + ["one", "polish"]):
+            scen.append(dict(kind="wl", wl=dict(words=[wlfam.o(w) for w in ws], nolist=0, len=3, cap=rng.choice(["random", "one"]), sep="char", sepChar=[]),
+                             maxTrials=0, failRateOne=0, mode="paths", paths=0, maxLeaves=0, tag="repeated-word-with-twin", reps=12))
     # long recipes: the capitalisation bonus of `random' is Length bits also beyond 63 words, `one' log2(Length)
     for L in (31, 32, 33, 63, 64, 65, 100, 128, 1000):
         for cap in ("random", "one", "all"):
             wl = dict(words=[wlfam.o(w) for w in ("one", "two", "three", "kettő", "zebra")], nolist=0, len=L, cap=cap, sep="char", sepChar=wlfam.o("-"))
             scen.append(dict(kind="wl", wl=wl, maxTrials=0, failRateOne=0, mode="paths", paths=0, maxLeaves=0, tag="long-recipe", reps=3))
     files, cells, leaves = wlfam.run_scenarios(ctx, scen, "c08")
+    # lists a content-keyed memo of NewWordList could confuse, constructed one after the other in one process (sizes and
+    # capitalisability differ, so the entropies must)
+    sf, sc_, sl = wlfam.run_sequences(ctx, wlfam.ctor_collision_sequences(), "c08")
+    files, cells, leaves = files + sf, cells + sc_, leaves + sl
     verdicts, decided = wlfam.validate(ctx, files)
     ctx.evaluations = len(scen) * reps
     ctx.nontrivial = wlfam.count_cells(files, lambda c: c["wl"]["cap"] in ("one", "random") or c["sepKind"] != "char")
